@@ -775,7 +775,8 @@ class DetExecutor:
             raise RuntimeError('cannot schedule new futures after shutdown')
         f = DetFuture(s)
         item = {'submit': s.step, 'start': None, 'end': None, 'tid': None,
-                'transfer': getattr(fn, 'transfer_id', None)}
+                'transfer': getattr(fn, 'transfer_id', None),
+                'task': type(fn).__name__}
         self.items.append(item)
         self._q.append((f, fn, args, kwargs, item))
         self.submitted += 1
